@@ -51,7 +51,8 @@ def gen_spec(rng, name, klass="free", size=None, n_mws=None, own_stress=False):
              "async": rng.random() < 0.3,
              # a quarter of the constructors are associated functions of a `#[pavex::methods]` block (chosen without
              # consuming the generator's random stream)
-             "method": zlib.crc32(("%s/%d" % (name, i)).encode()) % 4 == 0,
+             "method": {0: True, 4: True, 2: "trait"}.get(zlib.crc32(("%s/%d" % (name, i)).encode()) % 8, False),
+             "fw": _fw_pick(name, "c", i),
              # a third of the constructors get their lifecycle and/or cloning policy from the registration
              # (`bp.constructor(X).lifecycle(..).clone_if_necessary()`), the annotation saying something else
              "override": [None, None, None, None, "life", "clone", "both", "both", None][zlib.crc32(("o/%s/%d" % (name, i)).encode()) % 9]}
@@ -143,6 +144,7 @@ def gen_spec(rng, name, klass="free", size=None, n_mws=None, own_stress=False):
         handlers.append({"i": h, "method": rng.choice(["GET", "POST", "PUT"]), "path": "/%s/r%d" % (name, h),
                          "ins": comp_inputs("h", h, True), "fallible": rng.random() < 0.15,
                          "async": rng.random() < 0.5})
+        handlers[-1]["fw"] = _fw_pick(name, "h", h, handler=True)
     if inclass:
         # a "moved" type consumed by handlers is owned by the handlers collectively
         for h in handlers:
@@ -153,6 +155,7 @@ def gen_spec(rng, name, klass="free", size=None, n_mws=None, own_stress=False):
     for m in range(rng.choice([0, 1, 2, 3, 4, 5]) if n_mws is None else n_mws):
         kind = rng.choice(["wrap", "pre", "post"])
         mws.append({"i": m, "kind": kind, "ins": comp_inputs("m", m, True), "fallible": rng.random() < 0.1})
+        mws[-1]["fw"] = _fw_pick(name, "m", m)
     observers = []
     for o in range(rng.choice([0, 0, 0, 1, 2])):
         # observers must not (transitively) need fallible constructors: keep them input-free or singleton-fed
@@ -223,6 +226,24 @@ def _fmt_ids(ins):
     return " ".join("{}" for _ in ins)
 
 
+FW_TYPES = {"head": "&pavex::request::RequestHead", "conn": "&pavex::connection::ConnectionInfo",
+            "matched": "&pavex::request::path::MatchedPathPattern", "params": "&pavex::request::path::RawPathParams<'_, '_>"}
+
+
+def _fw(comp, sep=True):
+    """an extra input provided by the framework (`comp["fw"]`), rendered as a trailing parameter"""
+    k = comp.get("fw")
+    if not k:
+        return ""
+    return (", " if sep else "") + "_fw: " + FW_TYPES[k]
+
+
+def _fw_pick(name, tag, i, handler=False):
+    """a sixth of the request-time components take one framework-provided value (no random draw consumed)"""
+    k = zlib.crc32(("fw/%s/%s/%d" % (name, tag, i)).encode()) % 18
+    return {0: "head", 1: "conn", 2: "params"}.get(k) or ("matched" if handler and k == 3 else None)
+
+
 def render(spec):
     M = spec["name"]
     U = M.upper()
@@ -284,11 +305,12 @@ def render(spec):
             emit_err("c", i)
         # `"method": true`: the constructor is an associated function inside a `#[pavex::methods] impl` block
         as_method = bool(c.get("method")) and t["cap"] is None and i not in ctor_imports
-        if as_method:
-            w("#[pavex::methods]")
-            w("impl T%d {" % i)
+        as_trait = as_method and c.get("method") == "trait" and not c["async"]
+        _hdr = len(o)   # the impl header goes here once the signature is known
         w("#[pavex::%s(%s)]" % (life, ", ".join(args)))
         params = ", ".join(_param(spec, k, j, m) for k, (j, m) in enumerate(c["ins"]))
+        if c["life"] == "request" and t["cap"] is None:
+            params += _fw(c, sep=bool(params))
         out = _ty(spec, i)
         gen = ""
         if t["cap"] is not None:
@@ -312,9 +334,17 @@ def render(spec):
             body = "if should(\"%s.c%d\") { log(format!(\"fail %s.c%d\")); return Err(%s); } " % (M, i, M, i, err_ty("c", i)) + body + " Ok(%s)" % build
         else:
             body += " " + build
-        w("pub %sfn c%d%s(%s) -> %s { %s }" % ("async " if c["async"] else "", i, gen, params, ret, body))
-        if as_method:
+        if as_trait:
+            # a method of a local trait implemented for the type (`#[pavex::methods] impl MkC5 for T5 { .. }`)
+            w("fn c%d%s(%s) -> %s { %s }" % (i, gen, params, ret, body))
             w("}")
+            o[_hdr:_hdr] = ["pub trait MkC%d { fn c%d%s(%s) -> %s; }" % (i, i, gen, params, ret), "#[pavex::methods]", "impl MkC%d for T%d {" % (i, i)]
+        elif as_method:
+            w("pub %sfn c%d%s(%s) -> %s { %s }" % ("async " if c["async"] else "", i, gen, params, ret, body))
+            w("}")
+            o[_hdr:_hdr] = ["#[pavex::methods]", "impl T%d {" % i]
+        else:
+            w("pub %sfn c%d%s(%s) -> %s { %s }" % ("async " if c["async"] else "", i, gen, params, ret, body))
         if i in ctor_imports and not c["fallible"]:
             cgroup_src.setdefault(ctor_imports[i], []).extend(o[_cstart:])
             del o[_cstart:]
@@ -349,6 +379,7 @@ def render(spec):
         else:
             w("#[pavex::route(method = \"%s\", path = \"%s\", id = \"%s_H%d\"%s)]" % (h["method"], h["path"], U, i, nonstd))
         params = ", ".join(_param(spec, k, j, m) for k, (j, m) in enumerate(h["ins"]))
+        params += _fw(h, sep=bool(params))
         body = "log(format!(\"handler %s.h%d : %s\"%s));" % (M, i, _fmt_ids(h["ins"]), (", " + _ids(h["ins"])) if h["ins"] else "")
         if h["fallible"]:
             body = "if should(\"%s.h%d\") { log(format!(\"fail %s.h%d\")); return Err(%s); } " % (M, i, M, i, err_ty("h", i)) + body + " Ok(Response::ok())"
@@ -372,6 +403,7 @@ def render(spec):
         if m["fallible"]:
             emit_err("m", i)
         params = ", ".join(_param(spec, k, j, mo) for k, (j, mo) in enumerate(m["ins"]))
+        params += _fw(m, sep=bool(params))
         ids = (", " + _ids(m["ins"])) if m["ins"] else ""
         fail = ("if should(\"%s.m%d\") { log(format!(\"fail %s.m%d\")); return Err(%s); } " % (M, i, M, i, err_ty("m", i))) if m["fallible"] else ""
         if m["kind"] == "wrap":
